@@ -9,4 +9,5 @@ def main (args : List String) : IO UInt32 := do
   | ["C19"] => Proto.runLoop C19.driverStep []; return 0
   | ["C02"] => Proto.runLoop C02.driverStep {}; return 0
   | ["C03"] => Proto.runLoop C03.driverStep {}; return 0
+  | ["C15"] => Proto.runLoop C15.driverStep (); return 0
   | _ => IO.eprintln s!"unknown driver {args}"; return 2
